@@ -21,8 +21,9 @@ def jobs(mod, tier, seed, quick=(1, 1500, 200, 250, 10), thorough=(2, 30000, 600
     bound, max_runs, n_fixed, n_hyp, n_hyp_jobs = quick if tier == "quick" else thorough
     js = []
     for i in range(len(mod.FIXED)):
-        js.append({"kind": "systematic", "index": i, "bound": bound, "max_runs": max_runs})
-        js.append({"kind": "fixed_random", "index": i, "n": n_fixed, "seed": derive_seed(seed, mod.PID, "f", i)})
+        heavy = mod.FIXED[i].get("heavy")   # a long scenario: fewer runs of each kind
+        js.append({"kind": "systematic", "index": i, "bound": bound, "max_runs": max_runs // 8 if heavy else max_runs})
+        js.append({"kind": "fixed_random", "index": i, "n": n_fixed // 4 if heavy else n_fixed, "seed": derive_seed(seed, mod.PID, "f", i)})
         if mod.FIXED[i].get("stall_runs"):
             # scenarios built for a "stale decision after the lock was released" window: long stalls at synchronisation points
             n = mod.FIXED[i]["stall_runs"] * (1 if tier == "quick" else 12)
@@ -38,17 +39,18 @@ def run_job(mod, job, col):
     if k == "fixed_stall":
         import random
         rnd = random.Random(job["seed"])
-        base = {kk: v for kk, v in mod.FIXED[job["index"]].items() if kk != "stall_runs"}
+        base = {kk: v for kk, v in mod.FIXED[job["index"]].items() if kk not in ("stall_runs", "stall_params", "heavy")}
         for _ in range(job["n"]):
-            spec = {"kind": "stall", "seed": rnd.randrange(10 ** 9), "stalls": rnd.choice([1, 1, 2]), "est_hot": rnd.choice([20, 30, 40, 60]),
-                    "max_dur": rnd.choice([60, 200, 400])}
+            sp = mod.FIXED[job["index"]].get("stall_params") or {}
+            spec = {"kind": "stall", "seed": rnd.randrange(10 ** 9), "stalls": rnd.choice([1, 1, 2]), "est_hot": rnd.choice(sp.get("est_hot", [20, 30, 40, 60])),
+                    "max_dur": rnd.choice(sp.get("max_dur", [60, 200, 400]))}
             case = dict(base, schedule=spec)
             fs, nt, labels, trace, _s = mod.run_case_full(case)
             if fs and trace is not None:
                 case = dict(case, schedule=S.replay_spec(trace))
             col.record(case, fs, nontrivial=nt, labels=set(labels) | {"fixed-scenario", "stall-schedule"})
     elif k == "fixed_random":
-        base = {kk: v for kk, v in mod.FIXED[job["index"]].items() if kk != "stall_runs"}
+        base = {kk: v for kk, v in mod.FIXED[job["index"]].items() if kk not in ("stall_runs", "stall_params", "heavy")}
 
         cnt = [0]
 
@@ -76,7 +78,7 @@ def run_job(mod, job, col):
 
         hyp_run(mod.case_strategy(), one, job["n"], job["seed"])
     elif k == "systematic":
-        base = {kk: v for kk, v in mod.FIXED[job["index"]].items() if kk != "stall_runs"}
+        base = {kk: v for kk, v in mod.FIXED[job["index"]].items() if kk not in ("stall_runs", "stall_params", "heavy")}
 
         def runner(src):
             fs, nt, labels, trace, sched = mod.run_case_full(base, source=src, record=True)
